@@ -1252,8 +1252,10 @@ class Tr:
             return value.args[0].id
         return None
 
-    def gen_next_stmt(self, target, gname, handler, rest, end):
-        """`target = next(g)` for a generator variable `g` (a list that is consumed from the front)"""
+    def gen_next_stmt(self, target, gname, handler, rest, end, orelse=()):
+        """`target = next(g)` for a generator variable `g` (a list that is consumed from the front); `orelse`: the `else:` block of
+        the `try`, which runs in the NON-exception arm only (audit 4: it was rendered in both arms, byte-identical to the same
+        statements placed after the `try`)"""
         g = self.lookup(gname)
         if g is None or g.ty is None or g.ty.k != "L":
             raise Shape("generator variable %s" % gname)
@@ -1270,7 +1272,7 @@ class Tr:
             self.env[target] = V(x, g.ty.args[0], nonneg=g.ty.args[0] == N)
             self.env[gname] = V(g1, g.ty)
             self.kill_facts(target)
-            return ("%s :: %s" % (x, g1), self.block(rest, end))
+            return ("%s :: %s" % (x, g1), self.block(list(orelse) + rest, end))
         a = self.arm(empty)
         pat, b = self.arm(cons)
         return Arms(g.t, [("[]", a), (pat, b)])
@@ -1286,7 +1288,7 @@ class Tr:
         tgt, value = s.body[0].targets[0].id, s.body[0].value
         g = self.gen_next(value)
         if g is not None:
-            return self.gen_next_stmt(tgt, g, list(s.handlers[0].body), list(s.orelse) + rest, end)
+            return self.gen_next_stmt(tgt, g, list(s.handlers[0].body), rest, end, orelse=list(s.orelse))
         text = self.next_of(value)
         if text is None:
             raise Shape("try around something other than next(...)")
